@@ -35,6 +35,15 @@ type storeWorld struct {
 	removedGERs   map[common.Hash]bool
 	removedLegacy map[common.Address]bool
 	twinN         int
+	// rows as the recorded mechanism (F6/F7) leaves them: removal events delete rows of earlier
+	// blocks, a reorg only deletes rows of the dropped blocks. Used ONLY to classify known findings.
+	f6Rows []GERRow
+	f7Rows []f7Row
+}
+
+type f7Row struct {
+	Block  uint64
+	Legacy common.Address
 }
 
 func newStoreWorld(kind, dir string, cfg map[string]int64, rec *Recorder, seed uint64) (*storeWorld, error) {
@@ -100,8 +109,19 @@ func (w *storeWorld) applyModel(b MBlock) {
 	case "bridge":
 		w.bm.Apply(b)
 		for _, e := range b.Events {
-			if rl := e.(bridgesync.Event).RemoveLegacyToken; rl != nil {
+			ev := e.(bridgesync.Event)
+			if rl := ev.RemoveLegacyToken; rl != nil {
 				w.removedLegacy[rl.LegacyTokenAddress] = true
+				k := w.f7Rows[:0]
+				for _, r := range w.f7Rows {
+					if r.Legacy != rl.LegacyTokenAddress {
+						k = append(k, r)
+					}
+				}
+				w.f7Rows = k
+			}
+			if lm := ev.LegacyTokenMigration; lm != nil {
+				w.f7Rows = append(w.f7Rows, f7Row{b.Num, lm.LegacyTokenAddress})
 			}
 		}
 	case "l1info":
@@ -109,14 +129,41 @@ func (w *storeWorld) applyModel(b MBlock) {
 	default:
 		w.gm.Apply(b)
 		for _, e := range b.Events {
-			if ge := e.(*lastgersync.Event).GEREvent; ge != nil && ge.IsRemove {
-				w.removedGERs[ge.GlobalExitRoot] = true
+			ev := e.(*lastgersync.Event)
+			switch {
+			case ev.GERInfo != nil:
+				w.f6Rows = append(w.f6Rows, GERRow{b.Num, ev.GERInfo.GlobalExitRoot, ev.GERInfo.L1InfoTreeIndex})
+			case ev.GEREvent != nil && !ev.GEREvent.IsRemove:
+				w.f6Rows = append(w.f6Rows, GERRow{b.Num, ev.GEREvent.GlobalExitRoot, ev.GEREvent.L1InfoTreeIndex})
+			case ev.GEREvent != nil && ev.GEREvent.IsRemove:
+				w.removedGERs[ev.GEREvent.GlobalExitRoot] = true
+				k := w.f6Rows[:0]
+				for _, r := range w.f6Rows {
+					if r.GER != ev.GEREvent.GlobalExitRoot {
+						k = append(k, r)
+					}
+				}
+				w.f6Rows = k
 			}
 		}
 	}
 }
 
 func (w *storeWorld) rewindModel(first uint64) int {
+	k6 := w.f6Rows[:0]
+	for _, r := range w.f6Rows {
+		if r.Block < first {
+			k6 = append(k6, r)
+		}
+	}
+	w.f6Rows = k6
+	k7 := w.f7Rows[:0]
+	for _, r := range w.f7Rows {
+		if r.Block < first {
+			k7 = append(k7, r)
+		}
+	}
+	w.f7Rows = k7
 	switch w.kind {
 	case "bridge":
 		return w.bm.Rewind(first)
@@ -298,16 +345,19 @@ func (w *storeWorld) twinCheck(heavy bool) *Violation {
 func (w *storeWorld) classifyRemoval(differing []string) string {
 	switch w.kind {
 	case "lastger":
-		// expected-buggy content: present rows of the canonical chain minus any GER ever removed
-		rows := w.gm.Present()
-		exp := []GERRow{}
-		for _, r := range rows {
-			if !w.removedGERs[r.GER] {
-				exp = append(exp, r)
+		// the store must show exactly what the recorded mechanism leaves behind, and that must differ
+		// from the canonical content
+		exp := w.f6Rows
+		if len(exp) == len(w.gm.Present()) {
+			same := true
+			for i, r := range w.gm.Present() {
+				if exp[i] != r {
+					same = false
+				}
 			}
-		}
-		if len(exp) == len(rows) {
-			return ""
+			if same {
+				return ""
+			}
 		}
 		for x := uint32(0); x <= w.gm.MaxIndex()+2; x++ {
 			var want *GERRow
@@ -331,18 +381,17 @@ func (w *storeWorld) classifyRemoval(differing []string) string {
 				return ""
 			}
 		}
-		// expected-buggy content: canonical migrations minus those whose legacy address was ever removed
-		want := 0
+		// the listing must hold exactly the rows the recorded mechanism leaves behind
+		canonical := 0
 		for _, b := range w.bm.Blocks {
 			for _, e := range b.Events {
-				ev := e.(bridgesync.Event)
-				if ev.LegacyTokenMigration != nil && !w.removedLegacy[ev.LegacyTokenMigration.LegacyTokenAddress] {
-					want++
+				if e.(bridgesync.Event).LegacyTokenMigration != nil {
+					canonical++
 				}
 			}
 		}
 		_, n, err := w.store.(*BridgeStore).F.GetLegacyTokenMigrations(bg, 1, 100000)
-		if err == nil && n == want {
+		if err == nil && n == len(w.f7Rows) && n != canonical {
 			return "bridge/legacy-removal-in-dropped-block-not-undone"
 		}
 	}
